@@ -216,6 +216,15 @@ CHECKS = {
          '(with_header, token_separator), the frame must equal the generated rows; frames are written with write_csv/3 '
          '(line_separator, token_separator, with_header) to a file whose text must parse back to the same frame.',
     note='Numeric-looking fields restricted to plain integers/decimals (typing follows number_chars/2); rows have >= 2 columns.'),
+ 'C53': dict(
+    level='exploration',
+    technique='runtime monitoring: reference model (Python sets/dicts) of the graph-theoretic definitions; exhaustive enumeration of all digraphs with <= 3 vertices',
+    text='All 531 digraphs with at most 3 vertices (self loops included) and random digraphs with 2-8 vertices over integer and '
+         'mixed-type vertex names go through vertices_edges_to_ugraph, vertices, edges, add/del_vertices, add/del_edges, neighbours, '
+         'transpose_ugraph, compose, ugraph_union, transitive_closure, reachable, complement and chains of operations; results must '
+         'equal the model\'s S-representation; top_sort/2 must fail exactly on cyclic graphs and otherwise return a valid order.',
+    note='Definitions from the library documentation (closure: paths of length >= 1; reachable includes the start; complement '
+         'without self loops). Multi-character atom names avoid the sort/2 finding K4.'),
 }
 
 NOT_APPLICABLE_REASON_UNBUILT = ('check designed in DESIGN.md but not built/validated yet in this session; '
